@@ -11,7 +11,8 @@
 (* commit hook of the database wrapper holds across the inner commit - so  *)
 (* the order of the lines is the order of the commits):                    *)
 (*   chain actions of the harness thread, logged when done:                *)
-(*      Extend Fork ForkSlow ReorgStep SwitchTo Announce Reannounce        *)
+(*      Extend ForkSlow ReorgBegin ReorgStep Announce Reannounce           *)
+(*      (every reorganisation one disconnect / connect at a time)          *)
 (*   scheduling points of the follower goroutine (build-tagged):           *)
 (*      h.top  h.block  h.tx  h.suspended  h.resumed                       *)
 (*   scheduling points of the worker goroutine:                            *)
@@ -92,6 +93,10 @@ EvForkSlow == Consume /\ Ev.ev = "ForkSlow" /\ NBlk + 1 = Ev.b
 EvReorgStep == Consume /\ Ev.ev = "ReorgStep" /\ ReorgDetaches = Ev.det
               /\ ReorgStep /\ (reorg' = 0) = Ev.done /\ UNCHANGED followerVars /\ KeepT
 EvSwitchTo == Consume /\ Ev.ev = "SwitchTo" /\ SwitchTo(Ev.b) /\ UNCHANGED followerVars /\ KeepT
+\* the harness performs every reorganisation at the grain of the chain database (ForkSlow / ReorgBegin, then one
+\* ReorgStep line per disconnect / connect): a step of the follower that reads the chain database in the middle of
+\* it - an unconfirmed transaction whose parent is on neither side for a moment - is then a step on a state of Chain.tla
+EvReorgBegin == Consume /\ Ev.ev = "ReorgBegin" /\ ReorgBegin(Ev.b) /\ UNCHANGED followerVars /\ KeepT
 EvAnnounce == Consume /\ Ev.ev = "Announce" /\ Announce(Ev.t) /\ UNCHANGED followerVars /\ KeepT
 
 \* the node relays a transaction it had announced before (evicted from its pool and received again, re-broadcast
@@ -262,7 +267,7 @@ EvQEnd == /\ Consume /\ Ev.ev = "q.end" /\ pre.qo
           /\ pre' = [pre EXCEPT !.qo = FALSE, !.q = {}]
           /\ UNCHANGED <<vars, hst, wst>>
 
-TraceNext == \/ EvQBegin \/ EvQEnd \/ EvReannounce
+TraceNext == \/ EvQBegin \/ EvQEnd \/ EvReannounce \/ EvReorgBegin
              \/ EvExtend \/ EvFork \/ EvForkSlow \/ EvReorgStep \/ EvSwitchTo \/ EvAnnounce
              \/ EvHBlock \/ StepBlock \/ EvHTx \/ StepTx \/ EvCommitH \/ EvRollbackH
              \/ EvHSuspended \/ EvHResumed \/ EvHTop \/ EvFaultH \/ EvFaultW \/ EvRollbackWF
